@@ -928,8 +928,16 @@ func (handler *Handler) PreparedStatementResponseHandler(ctx context.Context, pa
 	queryObj := handler.protocolState.PendingParse()
 	statement, err := queryObj.Statement()
 	if err != nil {
-		handler.logger.WithError(err).Error("Failed to handle prepared statement response packet: can't find prepared statement")
-		return err
+		// the database prepared a statement that acra's parser does not understand: there is nothing to encrypt or
+		// decrypt for it (as for such statements sent with COM_QUERY), the response is relayed as is
+		handler.logger.WithError(err).Warningln("Can't parse prepared statement, it will not be processed")
+		handler.resetQueryHandler()
+		if _, err := clientConnection.Write(packet.Dump()); err != nil {
+			handler.logger.WithError(err).WithField(logging.FieldKeyEventCode, logging.EventCodeErrorNetworkWrite).
+				Debugln("Can't proxy output")
+			return err
+		}
+		return nil
 	}
 
 	preparedStmt := NewPreparedStatement(response.StatementID, response.ParamsNum, queryObj.Query(), statement)
